@@ -1,4 +1,8 @@
-import json,sys
-# usage: mkreg.py name prop sub ints...
-name,prop,sub=sys.argv[1:4]; a=[int(x) for x in sys.argv[4:]]
-json.dump({"property":prop,"sub":sub,"case":{"a":a},"note":"regression case of a fixed defect; replayed first by every run"},open(f'"+__import__("os").environ.get("VERIF_ROOT","/verif")+"/regress/{name}.json','w'),indent=1)
+#!/usr/bin/env python3
+"""Write a regress file: tools/mkreg.py <name> <Cxx> <sub> <int args...>"""
+import json, os, sys
+name, prop, sub = sys.argv[1:4]
+a = [int(x) for x in sys.argv[4:]]
+root = os.environ.get("VERIF_ROOT", "/verif")
+json.dump({"property": prop, "sub": sub, "case": {"a": a}, "note": "regression case of a fixed defect; replayed first by every run"},
+          open(f"{root}/regress/{name}.json", "w"), indent=1)
